@@ -49,7 +49,7 @@ def run_property(pid, tier, seed, repo, root, t0):
 
     def witness(u):
         if u not in witness_cache:
-            witness_cache[u] = witness_run.run(u, repo, root, group=wgroup)
+            witness_cache[u] = witness_run.run(u, repo, root, group=wgroup, tier=tier)
         return witness_cache[u]
 
     for u in cfg.get("verus", []):
